@@ -208,6 +208,10 @@ class Type3Tag(nfc.tag.Tag):
                 log.debug("unsupported ndef mapping major version")
                 return None
 
+            if attributes['ln'] > attributes['nmaxb'] * 16:
+                log.debug("ndef length exceeds the available data blocks")
+                return None
+
             last_block_number = 1 + (attributes['ln'] + 15) // 16
             data = bytearray()
 
